@@ -17,9 +17,9 @@ RULE = (
     "Event scripts over {T timeout, C connection error, E empty read, B busyRepeatRequest, P responsePending, S pending-then-silence "
     "(silence lasts until the next transmission), M mismatching reply, Q responsePending naming another service, X malformed reply, N negative final, F positive final}, one "
     "event per transport read, silence after the script; x client max_retry 0..3 x per-request UDSRequestConfig overrides "
-    "(max_retry, timeout). All scripts of length <= 3 (quick) / <= 4 (thorough) x max_retry 0..3 enumerated exhaustively, "
+    "(max_retry, timeout). All scripts of length <= 3 (quick) / <= 5 (thorough) x max_retry 0..3 enumerated exhaustively, "
     "Hypothesis scripts up to length 12 with overrides, plus long runs: k pendings then a final reply, endless pendings, "
-    "silence after a pending for timeouts 0.1/2/20/60 s. A reference retry/pending machine written from the statement predicts "
+    "silence after a pending for timeouts 0.1/2/20/60 s, a final reply after k silent polls around the silence limit, several pendings whose silences each stay below the limit but add up to more. A reference retry/pending machine written from the statement predicts "
     "outcome, number of transmissions, reconnects; history invariant: no transmission while pending. Virtual time. "
     "Non-trivial: script contains a retry-worthy or pending event. Distinct by (script, max_retry, overrides)."
 )
